@@ -325,6 +325,81 @@ func seqHistory(r *ev.Run, id string, i int) {
 	}
 }
 
+// ---- a sink that refuses one write and then works again -------------------------------------------
+
+type faultSink struct {
+	got    []byte
+	writes int
+	failAt int
+	syncs  int
+}
+
+func (s *faultSink) Write(p []byte) (int, error) {
+	s.writes++
+	if s.writes == s.failAt {
+		return 0, errors.New("c12 sink refuses this write")
+	}
+	s.got = append(s.got, p...)
+	return len(p), nil
+}
+func (s *faultSink) Sync() error { s.syncs++; return nil }
+
+// writeFault: the sink takes nothing of its failAt-th write and reports an error, every other write
+// succeeds. Whatever the syncer reports from then on, the sink never skips accepted bytes: what it
+// holds is always a prefix of the accepted stream (accepted = writes that returned len(p), nil), and
+// whenever Sync or Stop returns nil it holds all of it.
+func writeFault(r *ev.Run, id string, i int) {
+	g := rng.For(r.Seed, "c12/writefault", i)
+	size := rng.Pick(g, []int{4, 16, 64, 512})
+	sink := &faultSink{failAt: g.Range(1, 4)}
+	b := &zapcore.BufferedWriteSyncer{WS: sink, Size: size, FlushInterval: time.Hour, Clock: &hclock{}}
+	defer b.Stop()
+	var accepted []byte
+	var trace []string
+	stopped := false
+	fail := func(msg string) {
+		r.Violate(ev.Violation{Case: id, Class: "bws-hole-after-sink-fault", Msg: fmt.Sprintf("Size=%d, the sink refuses its write number %d: %s", size, sink.failAt, msg), Witness: map[string]any{"ops": trace, "sink": string(tailB(sink.got, 200)), "accepted": string(tailB(accepted, 200))}})
+	}
+	for step, nops := 0, g.Range(6, 40); step < nops; step++ {
+		switch g.Intn(5) {
+		case 0, 1, 2:
+			p := []byte(fmt.Sprintf("<w%d:%s>", step, strings.Repeat("x", g.Intn(size+size/2+1))))
+			n, err := b.Write(p)
+			trace = append(trace, fmt.Sprintf("Write(%d bytes) = (%d, %v)", len(p), n, err))
+			if err == nil && n == len(p) {
+				accepted = append(accepted, p...)
+			}
+		case 3:
+			err := b.Sync()
+			trace = append(trace, fmt.Sprintf("Sync = %v", err))
+			if err == nil && !bytes.Equal(sink.got, accepted) {
+				fail(fmt.Sprintf("Sync returned nil but the sink holds %d of %d accepted bytes", len(sink.got), len(accepted)))
+				return
+			}
+		default:
+			err := b.Stop()
+			trace = append(trace, fmt.Sprintf("Stop = %v", err))
+			first := !stopped && sink.writes+len(accepted) > 0
+			if first {
+				stopped = true
+			}
+			// only the Stop that actually stops reports the final flush; a repeated Stop has nothing to report
+			if first && err == nil && !bytes.Equal(sink.got, accepted) {
+				fail(fmt.Sprintf("Stop returned nil but the sink holds %d of %d accepted bytes", len(sink.got), len(accepted)))
+				return
+			}
+		}
+		if len(sink.got) > len(accepted) || !bytes.Equal(sink.got, accepted[:len(sink.got)]) {
+			fail("the sink's stream is not a prefix of the accepted stream: accepted bytes were skipped (or others invented)")
+			return
+		}
+		r.Count("write_fault_ops", 1)
+	}
+	if sink.writes >= sink.failAt {
+		r.Count("write_fault_histories_that_reached_the_fault", 1)
+	}
+}
+
 // ---- several syncers side by side ---------------------------------------------------------------
 
 // sideBySide runs 2-3 syncers of equal size (the default size among them) in one interleaved history of
@@ -973,6 +1048,24 @@ func Run(r *ev.Run) {
 		}
 		if hung >= 3 {
 			break // each abandoned history leaks its goroutines; three are enough
+		}
+	}
+	for i, n := 0, r.N(400, 8000); i < n; i++ {
+		id := fmt.Sprintf("c12/write-fault/%d", i)
+		if !r.Want(id) {
+			continue
+		}
+		r.Eval(1)
+		r.Distinct(fmt.Sprintf("wfault|%d", i))
+		h := mon.Watch(60*time.Second, func() { writeFault(r, id, i) }, "BufferedWriteSyncer")
+		if h.Panicked != "" {
+			r.Violate(ev.Violation{Case: id, Class: "bws-panic", Msg: "panicked: " + h.Panicked})
+		} else if h.Dead {
+			r.Violate(ev.Violation{Case: id, Class: "bws-deadlock", Msg: "an operation after a sink fault never returned", Witness: h.Dump})
+			break
+		} else if h.Hung {
+			r.Inconclusive(id + ": exceeded the watchdog")
+			break
 		}
 	}
 	for i, n := 0, r.N(400, 8000); i < n; i++ {
